@@ -14,7 +14,7 @@
 //     pc a b o : registers after the edge        sv sc : o_syscall_valid, o_syscall before the edge
 //     f        : fetched byte (u_processor.instr) dv we da dd : data port valid/we/addr/data before the edge
 //     mw       : '-' or addr=val,... for EVERY memory word that differs from what was planted
-//   seq <n> <mem>
+//   seq <n> <mem> [<pc>,<a>,<b>,<o>]      (optional: register values at power-on, before the reset)
 //     reset (i_rst=1 with a rising clock edge, then i_rst=0), then n clocks from the planted
 //     memory; prints `rst=<mw>` (words changed by the reset edge itself) and the n observations
 //     `pc a b o sv sc mw` separated by '|', where mw lists the
@@ -118,6 +118,12 @@ int main(int argc, char **argv) {
       // reset from all-zero registers: one rising clock edge with i_rst high, then release
       top->i_clk = 0; top->i_rst = 0;
       PROC(pc_q) = 0; PROC(areg_q) = 0; PROC(breg_q) = 0; PROC(oreg_q) = 0;
+      if (f.size() >= 4) {   // power-on register values pc,a,b,o: reset has to wipe them
+        auto pw = split(f[3], ',');
+        if (pw.size() == 4) {
+          PROC(pc_q) = hx(pw[0]) & 0x1FFFFF; PROC(areg_q) = hx(pw[1]); PROC(breg_q) = hx(pw[2]); PROC(oreg_q) = hx(pw[3]);
+        }
+      }
       top->eval();
       top->i_rst = 1; top->eval();
       top->i_clk = 1; top->eval();
